@@ -32,7 +32,7 @@ def P(pid, rules, technique, decides, not_decided, assumptions=(),
     }
 
 
-P("C01", ["R08", "R09", "R10", "R11", "R12", "R13c", "R17", "R07", "R34", "R39", "R41", "R04", "R47"],
+P("C01", ["R08", "R09", "R10", "R11", "R12", "R13c", "R17", "R07", "R34", "R39", "R41", "R04", "R47", "R50"],
   "typestate abstract interpretation (dirty/clean fields), carry-loop "
   "symbolic agreement, unit-of-measure inference",
   "R08 in TimePoint.__add__ every incremented time/day field is followed by "
@@ -55,7 +55,7 @@ P("C01", ["R08", "R09", "R10", "R11", "R12", "R13c", "R17", "R07", "R34", "R39",
   ["unit declarations of sa/rules/scale.py (slot -> unit, radix -> ratio), "
    "printed with each obligation"])
 
-P("C02", ["R14", "R15", "R16", "R12", "R08", "R09", "R10", "R43", "R47"],
+P("C02", ["R14", "R15", "R16", "R12", "R08", "R09", "R10", "R43", "R47", "R04", "R50"],
   "def-use derivation of comparison-key operands, operator routing checks",
   "R15 every operand whose date/time fields feed the lexicographic key of "
   "_cmp, the hashed tuple of __hash__ and the field-wise difference of "
@@ -104,7 +104,7 @@ P("C04", ["R12", "R14", "R15", "R32", "R17", "R08", "R09", "R10", "R41", "R04", 
   "get_days_in_year_range) and the round-trip identities.",
   [], [])
 
-P("C05", ["R08", "R10", "R11", "R13c", "R13ab", "R09", "R34", "R47"],
+P("C05", ["R08", "R10", "R11", "R13c", "R13ab", "R09", "R34", "R47", "R04", "R50"],
   "typestate abstract interpretation with clamp/wrap idioms, field/length "
   "agreement",
   "R08 in add_months every single month step is followed by the clamp "
@@ -121,7 +121,7 @@ P("C05", ["R08", "R10", "R11", "R13c", "R13ab", "R09", "R34", "R47"],
   [], [])
 
 P("C06", ["R14", "R13c", "R08", "R09", "R10", "R11", "R12", "R15", "R22",
-          "R26", "R17", "R38", "R34", "R43", "R47"],
+          "R26", "R17", "R38", "R34", "R43", "R47", "R04", "R42", "R50"],
   "structural conversion-path checks, typestate, sign-domain evaluation",
   "R14 every converting path of to_time_zone shifts by (destination - own "
   "offset) - orientation cross-checked against get_time_zone_offset - and "
@@ -139,7 +139,7 @@ P("C06", ["R14", "R13c", "R08", "R09", "R10", "R11", "R12", "R15", "R22",
   "of C01 and the comparison of C02).",
   [], [])
 
-P("C07", ["R23", "R24", "R25", "R26", "R12", "R36", "R37", "R38", "R48"],
+P("C07", ["R23", "R24", "R25", "R26", "R12", "R36", "R37", "R38", "R48", "R35"],
   "constant folding / partial evaluation of the parser tables, regex-AST "
   "shape intersection",
   "R23 every translate row agrees with itself (one named group, capture "
@@ -166,7 +166,7 @@ P("C07", ["R23", "R24", "R25", "R26", "R12", "R36", "R37", "R38", "R48"],
   ["token -> field oracle transcribed from the README syntax tables (about "
    "20 entries, sa/rules/tablerules.py)"])
 
-P("C08", ["R24", "R23", "R14", "R26", "R35", "R37", "R38", "R48"],
+P("C08", ["R24", "R23", "R14", "R26", "R35", "R37", "R38", "R48", "R36"],
   "path enumeration of the default dump format, folded table agreement",
   "R24 each of the 24 strings _get_dump_format can return (4 time shapes x "
   "2 zone shapes x 3 date tails, enumerated over its paths) is an extended "
@@ -180,7 +180,7 @@ P("C08", ["R24", "R23", "R14", "R26", "R35", "R37", "R38", "R48"],
   "equality after the 6-digit float truncation; custom formats in general.",
   [], [])
 
-P("C09", ["R20", "R21", "R22", "R10", "R11", "R23", "R31", "R33", "R12", "R36"],
+P("C09", ["R20", "R21", "R22", "R10", "R11", "R23", "R31", "R33", "R12", "R36", "R04", "R50"],
   "call-graph reachability of raise sites, must-pass-through analysis, "
   "bound-kind checks, regex star height",
   "R21 with both bypass flags off every exit of TimePoint.__init__ has "
@@ -231,7 +231,7 @@ P("C11", ["R16", "R17", "R12", "R07", "R40", "R41"],
   "and a month of 30 days.",
   "associativity/identity laws over float components.", [], [])
 
-P("C12", ["R18", "R19"],
+P("C12", ["R18", "R19", "R04"],
   "finite-domain abstract interpretation of the recurrence constructor and "
   "__iter__",
   "R18 for each of the 13 reachable abstract post-states of the "
@@ -257,7 +257,7 @@ P("C13", ["R19", "R43"],
   "that the closed form of get_first_after (divmod of second counts) lands "
   "on the earliest later member.", [], [])
 
-P("C14", ["R18", "R16", "R28"],
+P("C14", ["R18", "R16", "R28", "R17"],
   "abstract interpretation of __add__ re-entering the constructor, "
   "projection-set comparison",
   "R18 for every reachable state r + d rebuilds the recurrence through the "
@@ -313,7 +313,7 @@ P("C16", ["R01", "R02", "R03", "R17", "R21", "R37"],
   ["client code does not write underscore attributes; no "
    "object.__setattr__/ctypes tricks (checked absent in the package)"], [])
 
-P("C17", ["R29", "R13d", "R26", "R23", "R20", "R12", "R44", "R45", "R48"],
+P("C17", ["R29", "R13d", "R26", "R23", "R20", "R12", "R44", "R45", "R48", "R41"],
   "folded directive table vs POSIX meaning, representation abstract "
   "interpretation of strftime",
   "R29 the directive table holds exactly the supported set, each directive "
@@ -342,7 +342,7 @@ P("C18", ["R26", "R12", "R14", "R07", "R41", "R42", "R44"],
   "results for actual system zone configurations (read from time.* at run "
   "time).", [], [])
 
-P("C19", ["R30", "R20", "R32", "R12"],
+P("C19", ["R30", "R20", "R32", "R12", "R51"],
   "structural try/handler and option-plumbing checks, call-graph "
   "reachability",
   "R30 all four dispatch calls (for the recurrence generator: its loop) "
@@ -360,7 +360,7 @@ P("C19", ["R30", "R20", "R32", "R12"],
    "outside the handler (an environment variable, not an argument) - noted"],
   [])
 
-P("C20", ["R08", "R14", "R09", "R10", "R12", "R23", "R13c", "R36", "R46", "R47"],
+P("C20", ["R08", "R14", "R09", "R10", "R12", "R23", "R13c", "R36", "R46", "R47", "R04"],
   "typestate abstract interpretation of the search loops",
   "(thin) R08 in each of the seven in-scope search loops of add_truncated "
   "the incremented field is normalised by _tick_over() before the loop "
